@@ -31,12 +31,12 @@ Definition seg_dotdot (t : text) : bool := match t with [46; 46] => true | _ => 
 Definition has_colon (t : text) : bool := existsb (fun c => c =? 58) t.
 
 (* uriFixAmbiguity: a "." segment is put in front when
-   case 1: absolutePath and the first segment is empty, or
-   case 2: not absolutePath and the first two segments are empty *)
+   case 1: absolutePath, the first segment is empty and there is a second one, or
+   case 2: not absolutePath, no host, and the first two segments are empty *)
 Definition fix_ambiguity (u : uri) : uri :=
   match absolutePath u, pathSegs u with
-  | true, [] :: _ => set_pathSegs ([46] :: pathSegs u) u
-  | false, [] :: [] :: _ => set_pathSegs ([46] :: pathSegs u) u
+  | true, [] :: _ :: _ => set_pathSegs ([46] :: pathSegs u) u
+  | false, [] :: [] :: _ => if is_host_set u then u else set_pathSegs ([46] :: pathSegs u) u
   | _, _ => u
   end.
 
@@ -88,7 +88,7 @@ Fixpoint rds_walk (relative host abs : bool) (kept : list text) (rest : list tex
         | [p] =>                                                          (* prev is the first segment *)
           match nxt with
           | _ :: _ => rds_walk relative host abs [] nxt
-          | [] => [[]]                                                    (* walker re-used as "" *)
+          | [] => if abs then [] else [[]]                                (* "/" alone, or walker re-used as "" *)
           end
         | [] =>                                                           (* ".." is the first segment *)
           match nxt with
